@@ -522,6 +522,13 @@ class Machine:
         m = st.pick(METHODS, "method")
         if getattr(self, "regime", "moderate") != "moderate":
             m = st.pick(("linear", "constant"), "method-extreme")
+        rx, _ = self.ref()
+        special = st.weighted((8, 1, 1), "grid-special")     # ordinary, as many points as the reference, the reference grid
+        if special == 1 and len(rx) >= 2:
+            return "interpolate", {"n": int(len(rx)), "method": m}
+        if special == 2 and len(rx) >= 2 and rx[0] == x[0] and rx[-1] == x[-1]:
+            return "interpolate", {"new_x": [float(v) for v in rx], "form": st.pick(("list", "tuple", "array"), "grid-form"),
+                                   "method": m}
         if st.coin(1, 2, "by-n"):
             n = st.draw(2, min(3 * len(x), 400), "n")
             if n < 4 and True:
@@ -564,14 +571,15 @@ class Machine:
                 mode = st.weighted((3, 2, 2, 1), "noise-mode")
                 x, _ = self.cur()
                 if mode == 0:
-                    g = ("noise", {"snr": float(st.draw(0, 60, "snr-db")), "db": True})
+                    g = ("noise", {"snr": float("inf") if st.coin(1, 12, "snr-inf") else float(st.draw(0, 60, "snr-db")),
+                                   "db": True})
                 elif mode == 1:
                     g = ("noise", {"snr": st.pick((1.0, 2.0, 10.0, 100.0, 0.5), "snr-lin"), "db": False})
                 elif mode == 2:
                     g = ("noise", {"snr": [float(10 + (i * 7) % 30) for i in range(len(x))], "db": st.coin(1, 2, "db"),
                                    "form": st.pick(("list", "array"), "snr-form")})
                 else:
-                    g = ("noise", {"snr": None, "std": st.pick((1.0, 0.1, 2.5), "std")})
+                    g = ("noise", {"snr": None, "std": st.pick((1.0, 0.1, 2.5, 0.0), "std")})
                 g[1]["seed"] = st.draw(0, 10 ** 6, "rng-seed")
             if g is not None:
                 return g
